@@ -2,7 +2,7 @@
 // poolsim exploration under small limits, two node configurations:
 //   "_full": max_size_bytes 16000 with the pool pre-filled to 2 kB below the limit, cluster limits 4 txs / 400 vB
 //            (size-limit eviction, rolling minimum fee, cluster size limit);
-//   "_topo": cluster limits 3 (quick) / 4 (thorough) txs and 1200 vB, TRUC parents / children / siblings incl. children
+//   "_topo": cluster limits 3 txs and 1200 vB, TRUC parents / children / siblings incl. children
 //            padded to exactly 1000 / 1001 vB, ephemeral-dust packages, dust txs with prioritisation, cluster joins.
 // Oracle after every transaction / package acceptance (independent recomputation from infoAll()):
 //   (1) DynamicMemoryUsage() <= max_size_bytes; every connected component of the pool within the configured count and
@@ -254,11 +254,11 @@ int main(int argc, char** argv)
         f.max_idx = 2;
         f.prio_minus = false; f.prio_next = false;
         f.depth_quick = 2; f.depth_thorough = 3;
-        if (big) { f.classes.insert("J"); f.classes.insert("T"); f.classes.insert("I"); f.classes.insert("R"); f.thr = "e"; f.fees = "mhk"; }
+        if (big) { f.classes.insert("J"); f.classes.insert("T"); f.classes.insert("R"); f.thr = "e"; }
         ps::Opts t; // topology: TRUC, dust, cluster count
         t.max_size_bytes = 60000;
         t.cluster_size_vbytes = 1200;
-        t.cluster_count = big ? 4 : 3;
+        t.cluster_count = 3;
         t.classes = {"N3", "C", "CV", "PK", "PK3", "PE", "D", "P"};
         t.guarded = true;
         t.pe_all = big;
@@ -267,7 +267,7 @@ int main(int argc, char** argv)
         t.pk_parent = "l"; t.pk_child = "k";
         t.max_idx = 2;
         t.prio_minus = false; t.prio_next = false;
-        t.depth_quick = 3; t.depth_thorough = 4;
+        t.depth_quick = 3; t.depth_thorough = 3;
         if (big) { t.classes.insert("N"); t.classes.insert("CP"); t.pad_sizes = {1000, 1001}; t.classes.insert("SB"); t.thr = "e"; t.classes.insert("J"); t.classes.insert("M"); }
         else { t.classes.insert("CP"); t.pad_sizes = {1001}; }
         return ps::Configs{{"_full", f}, {"_topo", t}};
